@@ -345,6 +345,11 @@ def totals(ctx) -> None:
     n = stores["v_stock"]
     raw, at = fv.def_expr(n.ast.value, n.id)
     ok = False
+    if isinstance(raw, ast.Call) and call_fname(raw) == "sum" and raw.args and isinstance(raw.args[0], ast.Name):
+        # the summed list may be bound to a local first
+        inner, _at = fv.def_expr(raw.args[0], at if at is not None else n.id)
+        if isinstance(inner, (ast.ListComp, ast.GeneratorExp)):
+            raw = ast.Call(func=raw.func, args=[inner] + list(raw.args[1:]), keywords=raw.keywords)
     if isinstance(raw, ast.Call) and call_fname(raw) == "sum" and raw.args and isinstance(raw.args[0], (ast.ListComp, ast.GeneratorExp)) and len(raw.args[0].generators) == 1:
         comp = raw.args[0]
         g = comp.generators[0]
@@ -353,6 +358,16 @@ def totals(ctx) -> None:
             flt = len(g.ifs) == 1 and isinstance(g.ifs[0], ast.Compare) and len(g.ifs[0].ops) == 1 and isinstance(g.ifs[0].ops[0], ast.Eq) and is_name(g.ifs[0].left, dstep) \
                 and isinstance(g.ifs[0].comparators[0], ast.Constant) and g.ifs[0].comparators[0].value == 0
             ok = flt and is_name(comp.elt, vol)
+        elif isinstance(g.target, ast.Name) and (is_name(g.iter, instr_name) or attr_of_name(g.iter, selfn, "instructions")):
+            # the same sum with the instruction's fields read by position: [ins[3] for ins in instructions if ins[1] == 0]
+            t_ = g.target.id
+
+            def field(e, k):
+                return isinstance(e, ast.Subscript) and is_name(e.value, t_) and isinstance(e.slice, ast.Constant) and e.slice.value == k and not isinstance(e.slice.value, bool)
+
+            flt = len(g.ifs) == 1 and isinstance(g.ifs[0], ast.Compare) and len(g.ifs[0].ops) == 1 and isinstance(g.ifs[0].ops[0], ast.Eq) and field(g.ifs[0].left, 1) \
+                and isinstance(g.ifs[0].comparators[0], ast.Constant) and g.ifs[0].comparators[0].value == 0
+            ok = flt and field(comp.elt, 3)
     ctx.rep.check(ok if ok else None, rule, f"{f.qualname}/v_stock", "v_stock = sum of the volumes of the instructions that draw from the stock (dilution step 0)",
                   f"cannot recognise `{show(raw)[:70]}` as the sum of the stock draws", where=f.where(n.ast))
     # v_diluent
